@@ -111,7 +111,7 @@ func (x *Exec) doCallVals(p *Path, site ssa.Instruction, cc *ssa.CallCommon, fnv
 	if x.fc != nil {
 		// at any inlining depth (deferred closures and small helpers included): the call log counts those calls too
 		for ck, cls := range x.fc.AtCalls {
-			if !eventMatches(key, ck) {
+			if !eventMatches(key, renameLabel(ck, x.e.renamesOf(x.fn))) {
 				continue
 			}
 			vars := map[string]Val{}
@@ -140,7 +140,7 @@ func (x *Exec) doCallVals(p *Path, site ssa.Instruction, cc *ssa.CallCommon, fnv
 	}
 	if len(p.frames) == 1 && x.fc != nil && len(x.fc.AfterCalls) > 0 {
 		for ck, cls := range x.fc.AfterCalls {
-			if !eventMatches(key, ck) {
+			if !eventMatches(key, renameLabel(ck, x.e.renamesOf(x.fn))) {
 				continue
 			}
 			k0 := k
